@@ -166,7 +166,11 @@ static void put_variant(const Variant& v)
 }
 
 static Json::Parser* g_parser = 0;
-static void drop_parser() { delete g_parser; g_parser = 0; }
+// the Variant every round trip parses into: ONE per execution, still holding the previous document's value when the next one
+// is parsed (parse replaces the value of its result, it does not merge into it); every third round trip hands the text over
+// inside that very Variant (the String overload: the text must stay alive while the result is being replaced)
+static Variant* g_got = 0; static long g_rtCount = 0;
+static void drop_parser() { delete g_parser; g_parser = 0; delete g_got; g_got = 0; g_rtCount = 0; }
 
 void drv_apply(const char* op)
 {
@@ -206,8 +210,11 @@ void drv_apply(const char* op)
     // parse an exact-size heap copy of the produced text
     usize tl = text.length();
     char* copy = (char*)malloc(tl + 1); memcpy(copy, (const char*)text, tl); copy[tl] = 0;
-    Variant got;
-    bool ok = Json::parse((const char*)copy, got);
+    if(!g_got) g_got = new Variant;
+    Variant& got = *g_got;
+    bool ok;
+    if(++g_rtCount % 3 == 0) { got = String(copy, tl); ok = Json::parse(got.toString(), got); }
+    else ok = Json::parse((const char*)copy, got);
     bool eq = ok && orig == got && got == orig;
     j_begin("rt"); j_key("orig"); put_tree(nd); j_bytes("text", (const unsigned char*)copy, (long)tl); j_bool("ok", ok);
     j_key("got"); if(ok) put_variant(got); else fputs("{\"t\":\"none\",\"v\":0}", g_out);
